@@ -192,6 +192,9 @@ type ScriptSrc struct {
 	// Polite: stop playing once the destination reports closed (a well-behaved
 	// producer); default false = plays everything.
 	Polite bool
+	// PanicAtEnd: the subscribe function panics after having played the script
+	// (a producer that fails after - possibly - having terminated the stream).
+	PanicAtEnd bool
 }
 
 func NewScript(name string, c Ctor, script []Ev) *ScriptSrc {
@@ -214,6 +217,9 @@ func (s *ScriptSrc) Observable() ro.Observable[int] {
 				break
 			}
 			emit(ctx, d, i, e)
+		}
+		if s.PanicAtEnd {
+			panic(Err(99))
 		}
 		return s.teardown(n)
 	})
